@@ -13,7 +13,6 @@ use crate::wirereq::*;
 use serde_json::{json, Value};
 use std::os::unix::io::{AsRawFd, RawFd};
 use std::panic::{catch_unwind, AssertUnwindSafe};
-use std::sync::atomic::{AtomicUsize, Ordering};
 
 #[derive(Clone, Debug)]
 pub enum Dev {
@@ -249,50 +248,11 @@ fn deviations(req: &WireReq, level: u8) -> Vec<Dev> {
     v
 }
 
-static CURRENT: AtomicUsize = AtomicUsize::new(usize::MAX);
-
-extern "C" fn crash_handler(sig: libc::c_int) {
-    // async-signal-safe: format the index by hand and write it out
-    let idx = CURRENT.load(Ordering::Relaxed);
-    let mut buf = [0u8; 96];
-    let msg = b"VIOLATION property=C05 replay=/verif/replays/C05/crash-case-index-";
-    buf[..msg.len()].copy_from_slice(msg);
-    let mut p = msg.len();
-    let mut digits = [0u8; 20];
-    let mut n = idx;
-    let mut k = 0;
-    loop {
-        digits[k] = b'0' + (n % 10) as u8;
-        n /= 10;
-        k += 1;
-        if n == 0 {
-            break;
-        }
-    }
-    while k > 0 {
-        k -= 1;
-        buf[p] = digits[k];
-        p += 1;
-    }
-    buf[p] = b'\n';
-    // SAFETY: write(2) and _exit(2) are async-signal-safe.
-    unsafe {
-        libc::write(1, buf.as_ptr() as *const libc::c_void, p + 1);
-        let _ = sig;
-        libc::_exit(1);
-    }
-}
-
-fn install_crash_handler() {
-    for s in [libc::SIGSEGV, libc::SIGBUS, libc::SIGABRT, libc::SIGILL, libc::SIGFPE] {
-        // SAFETY: installing a handler that only uses async-signal-safe calls.
-        unsafe { libc::signal(s, crash_handler as usize) };
-    }
-}
-
 fn run_case(reqs: &[WireReq], prefixes: &[WireReq], c: &Case, res: &Resources, extra_fds: &[RawFd], acc: &mut Acc, idx: usize) {
-    CURRENT.store(idx, Ordering::Relaxed);
     let req = &reqs[c.req];
+    if idx % 16 == 0 || true {
+        crate::crash::set_case(&format!("{{\"property\":\"C05\",\"signature\":\"C05:process-killed-by-signal\",\"what\":\"the process died while the backend server handled this message\",\"case\":{{\"check\":\"C05\",\"req\":\"{}\",\"devs\":\"{:?}\",\"state\":{}}}}}", req.name(), c.devs, c.state).replace('\n', " "));
+    }
     let b = build(req, &c.devs);
     let mut rec = Recorder::new();
     rec.script.features = VIRTIO_F_PROTOCOL_FEATURES | 3;
@@ -409,7 +369,7 @@ fn prefixes() -> Vec<WireReq> {
 
 pub fn run(rep: &mut Report) {
     let level = if rep.is_thorough() { 1 } else { 0 };
-    install_crash_handler();
+    crate::crash::install("C05");
     let reqs = wellformed();
     let pre = prefixes();
     let all = cases(&reqs, pre.len(), level);
